@@ -255,7 +255,8 @@ pub fn protocols(thorough: bool, streams: u64) -> Vec<Proto> {
             for cmask in 0..(1u32 << n) {
                 for k in 1..=n.min(3) {
                     for owners in partitions(n, k) {
-                        crate::engine::product(&vec![2usize; k], |opp| {
+                        let radix = if thorough || k == 1 || (k == 2 && n == 2) { 3usize } else { 2 };
+                        crate::engine::product(&vec![radix; k], |opp| {
                             for extra in [false, true] {
                                 if !thorough && n == 3 && extra && cmask % 3 != 0 {
                                     continue;
@@ -283,7 +284,7 @@ pub fn run(r: &Report) {
     let streams = r.tier.pick(1u64, 2);
     r.set_rule(
         "protocol scenarios: 1..3 inputs x asset assignment {A,B} (first input A) x explicit/confidential spent outputs x every set partition of \
-         the inputs among 1..3 parties x 1..2 blinded outputs per party (asset and blinder index from the party's own inputs) x optional extra \
+         the inputs among 1..3 parties x 1..3 blinded outputs per party (asset and blinder index from the party's own inputs) x optional extra \
          explicit output x fee first/last x rng stream menu; for each scenario EVERY permutation of the parties (last element runs blind_last, \
          the others blind_non_last in that order), with a serialize/deserialize hop in every transition; invariants in every intermediate \
          state (scalar count, earlier outputs untouched, own outputs fully blinded) and in the terminal state (scalars empty, extracted tx \
